@@ -23,6 +23,13 @@ func checkFormulaProperty(p *Program, c *Check, id string) {
 	if extra, ok := extraRules[id]; ok {
 		extra(p, c)
 	}
+	if id != "C09" {
+		// every property is stated for every request whatever was processed before it: nothing reachable from a
+		// handler may write memory that outlives the request (C09 runs the same rules as part of its own claim)
+		sh := NewSharedInfo(p)
+		ruleSHR1(p, c, sh, p.requestPath(true))
+		ruleSHR4(p, c)
+	}
 }
 
 var extraRules = map[string]func(p *Program, c *Check){
